@@ -208,6 +208,13 @@ def obligations(tier: str) -> List[dict]:
             for r0 in range(len(ROLES_R)):
                 add('amr', 3, 1, 0, 400, x0=1, reified_cat=1, i0_op=ops[0],
                     i1_op=ops[1], i0_r=r0)
+        # dereify then reify / indicate branches on re-topped graphs (where
+        # N5 and N6 were found)
+        for ops in [(0, 1), (1, 0)]:
+            for x1 in (0, 3):
+                for r0 in (0, 2):
+                    add('amr', 3, 2, 0, 400, x0=1, x1=x1, reified_cat=1,
+                        i0_op=ops[0], i1_op=ops[1], i0_r=r0)
         add('custom', 2, 1, 0, 400, x0=0)
         add('custom', 2, 1, 0, 400, x0=1)
     else:
